@@ -65,6 +65,7 @@ fn main() {
         "rpc-free" => rpc::run_free(rest),
         "inbound-run" => inbound::run(rest),
         "localproc-run" => localproc::run(rest),
+        "localproc-race" => localproc::run_race(rest),
         "conn-send" => conn::run_send(rest),
         "conn-conc" => conn::run_conc(rest),
         "conn-recv" => conn::run_recv(rest),
